@@ -100,8 +100,6 @@ def gen(rng, tier, index):
     if kw.get("initialize") == "random" and rng.random() < 0.4:
         spec["global_seed"] = int(kw["random_state"])  # the same stream through np.random.seed and random_state=None
         kw["random_state"] = None
-    if cls == "FPS" and isinstance(kw.get("initialize"), int) and rng.random() < 0.15:
-        kw["initialize"] = kw["initialize"] - N  # the same item, counted from the end
     spec["carry"] = gens.pick(rng, forms.CARRY)
     return {"spec": spec, "X": X, "y": y, "kind": kind, "unit": unit, "warm_at": warm_at, "decoy": decoy}
 
